@@ -162,8 +162,9 @@ def rand_f32_input(rng):
     return rand_f64(rng) if rng.random() < 0.5 else rng.uniform(-1e3, 1e3)
 
 
-def rand_value(rng, t, env, size=4, frozen=False):
-    """`frozen`: the value is a set element or a mapping key -- sequences are given as tuples, sets as frozensets"""
+def rand_value(rng, t, env, size=4, frozen=False, single=False):
+    """`frozen`: the value is a set element or a mapping key -- sequences are given as tuples, sets as frozensets;
+    `single`: sets and mappings hold at most one element (their bytes then do not depend on an iteration order)"""
     g = env.g
     nm, subs = t
     if nm in INTS:
@@ -182,23 +183,23 @@ def rand_value(rng, t, env, size=4, frozen=False):
         return g.Offset(env.rand_uuidish(rng), rng.choice([0, 1, (1 << 64) - 1, rng.getrandbits(64)]))
     n = rng.choice([0, 0, 1, 2, size])
     if nm == "sequence":
-        items = [rand_value(rng, subs[0], env, size - 1, frozen) for _ in range(n)]
+        items = [rand_value(rng, subs[0], env, size - 1, frozen, single) for _ in range(n)]
         return tuple(items) if frozen else items
     if nm == "set":
         out = set()
-        for _ in range(n):
-            out.add(rand_value(rng, subs[0], env, size - 1, True))
+        for _ in range(min(n, 1) if single else n):
+            out.add(rand_value(rng, subs[0], env, size - 1, True, single))
         return frozenset(out) if frozen else out
     if nm == "mapping":
         out = {}
-        for _ in range(n):
-            out[rand_value(rng, subs[0], env, size - 1, True)] = rand_value(rng, subs[1], env, size - 1)
+        for _ in range(min(n, 1) if single else n):
+            out[rand_value(rng, subs[0], env, size - 1, True, single)] = rand_value(rng, subs[1], env, size - 1, False, single)
         return out
     if nm == "tuple":
-        return tuple(rand_value(rng, s, env, size - 1, frozen) for s in subs)
+        return tuple(rand_value(rng, s, env, size - 1, frozen, single) for s in subs)
     if nm == "variant":
         i = rng.randrange(len(subs))
-        return g.serialization.Variant(i, rand_value(rng, subs[i], env, size - 1, frozen))
+        return g.serialization.Variant(i, rand_value(rng, subs[i], env, size - 1, frozen, single))
     raise AssertionError(nm)
 
 
